@@ -21,7 +21,10 @@ fn key(op: &str, a: &Args) -> (u64, u64) {
     (h1.finish(), h2.finish())
 }
 
-const VLIMIT_KB: u64 = 1_500_000;   // allocation cap of a worker child (address space)
+// Address-space cap of a worker child.  The child's baseline is ~60 MB (text, data, stacks), which leaves ~40 MB for
+// allocations: anything larger fails at once (graceful Err where the code uses try_* allocation, abort otherwise)
+// instead of being slowly zero-filled, so that outcomes do not depend on the machine's memory speed.
+const VLIMIT_KB: u64 = 100_000;
 fn watchdog_ms() -> u64 { std::env::var("C08_WATCHDOG_MS").ok().and_then(|s| s.parse().ok()).unwrap_or(5000) }
 
 /// Stable class of a panic: source file (path below the repository) + message up to the first digit.
@@ -43,18 +46,32 @@ fn install_hook() {
     });
 }
 
-/// Execute `f` in a fresh thread with a watchdog.  Ok(x) | Err(code, location)
+/// Execute `f` in the (persistent) worker thread with a watchdog.  Ok(x) | Err(code, location).
+/// One thread for all cases of a child: a thread per case would let glibc's cache of freed thread stacks eat
+/// the address-space cap.  After a timeout the worker is lost; the child process exits and is restarted.
+type AnyBox = Box<dyn std::any::Any + Send>;
+type Job = Box<dyn FnOnce() -> AnyBox + Send>;
+struct Worker { tx: std::sync::mpsc::Sender<Job>, rx: std::sync::mpsc::Receiver<Result<AnyBox, String>> }
+static WORKER: OnceLock<Mutex<Worker>> = OnceLock::new();
 fn guarded<T: Send + 'static>(f: impl FnOnce() -> T + Send + 'static) -> Result<T, (i64, String)> {
     install_hook();
-    let (tx, rx) = std::sync::mpsc::channel();
-    let h = std::thread::Builder::new().stack_size(16 << 20).spawn(move || {
-        let r = std::panic::catch_unwind(std::panic::AssertUnwindSafe(f));
-        let _ = tx.send(r.map_err(|_| PANIC_LOC.lock().unwrap().clone()));
-    }).expect("spawn");
-    match rx.recv_timeout(Duration::from_millis(watchdog_ms())) {
-        Ok(Ok(x)) => { let _ = h.join(); Ok(x) }
-        Ok(Err(loc)) => { let _ = h.join(); Err((PANIC, loc)) }
-        Err(_) => Err((TIMEOUT, String::new())),   // the thread is abandoned; the child exits after reporting
+    let w = WORKER.get_or_init(|| {
+        let (tx, jrx) = std::sync::mpsc::channel::<Job>();
+        let (rtx, rx) = std::sync::mpsc::channel();
+        std::thread::Builder::new().stack_size(8 << 20).spawn(move || {
+            for job in jrx {
+                let r = std::panic::catch_unwind(std::panic::AssertUnwindSafe(job));
+                if rtx.send(r.map_err(|_| PANIC_LOC.lock().unwrap().clone())).is_err() { break }
+            }
+        }).expect("spawn");
+        Mutex::new(Worker { tx, rx })
+    });
+    let g = w.lock().unwrap();
+    g.tx.send(Box::new(move || Box::new(f()) as AnyBox)).expect("worker alive");
+    match g.rx.recv_timeout(Duration::from_millis(watchdog_ms())) {
+        Ok(Ok(b)) => Ok(*b.downcast::<T>().expect("result type")),
+        Ok(Err(loc)) => Err((PANIC, loc)),
+        Err(_) => Err((TIMEOUT, String::new())),
     }
 }
 
@@ -79,14 +96,6 @@ fn run_local(op: &str, a: &Args) -> Option<Args> {
                 (_, Some(_)) => skip(),
             }
         }
-        // calibration (never emitted as a case): wall time of one zeroed 64 MiB MutableBuffer, the legitimate
-        // bounded pre-allocation of the IPC stream reader; on a loaded / ballooned VM this alone can take seconds
-        "c08.calibrate" => {
-            let t = std::time::Instant::now();
-            let b = arrow_buffer::MutableBuffer::from_len_zeroed(64 << 20);
-            let x = std::hint::black_box(b.as_slice()[b.len() - 1]) as u128;
-            vec![g((t.elapsed().as_millis() + x) as i64)]
-        }
         _ => match probe_local(op, a) { Some(o) => o, None => return None },
     };
     Some(out)
@@ -110,6 +119,9 @@ fn spawn_child(file: &str, progress: &str, wd_ms: u64) -> Option<std::process::E
     let cmd = format!("ulimit -v {VLIMIT_KB}; ulimit -c 0; exec '{}' replay '{}'", exe.display(), file);
     let mut ch = std::process::Command::new("sh").arg("-c").arg(cmd)
         .env("C08_CHILD", progress).env("C08_WATCHDOG_MS", wd_ms.to_string()).env("RUST_BACKTRACE", "0")
+        // one malloc arena: under the address-space cap glibc cannot reserve per-thread arenas (64 MB each) and would
+        // retry the failing mmap on every allocation of the worker thread
+        .env("MALLOC_ARENA_MAX", "1")
         .stdin(std::process::Stdio::null()).stdout(std::process::Stdio::null())
         .stderr(if std::env::var("C08_TRACE").is_ok() { std::process::Stdio::inherit() } else { std::process::Stdio::null() })
         .spawn().expect("spawn child");
@@ -175,22 +187,7 @@ fn run_chunk(id: usize, jobs: &[(String, Args)], wd_ms: u64) -> Vec<Args> {
 /// Parent: run all jobs in parallel worker children and memoise the results.
 pub fn run_batch(jobs: Vec<(String, Args)>) -> Vec<Args> { let wd = watchdog_ms(); run_batch_wd(jobs, wd, wd * 6) }
 /// first pass with watchdog `first_ms`; a timeout is confirmed by a solo re-run with `confirm_ms` before it is reported
-fn calibration_ms() -> u64 {
-    static CAL: OnceLock<u64> = OnceLock::new();
-    *CAL.get_or_init(|| {
-        let jobs: Vec<(String, Args)> = (0..3).map(|i| ("c08.calibrate".to_string(), vec![g(i as i64)])).collect();
-        let outs = run_chunk(9999, &jobs, 120_000);
-        let all: Vec<u64> = outs.iter().map(|o| o.get(0).and_then(|g| g.get(0)).and_then(|x| u64::try_from(x).ok()).unwrap_or(0)).collect();
-        let ms = all.iter().copied().max().unwrap_or(0);
-        if std::env::var("C08_TRACE").is_ok() { eprintln!("c08: calibration samples {all:?}"); }
-        eprintln!("c08: calibration: zeroed 64 MiB buffer takes {ms} ms in a worker");
-        ms
-    })
-}
 pub fn run_batch_wd(jobs: Vec<(String, Args)>, first_ms: u64, confirm_ms: u64) -> Vec<Args> {
-    // watchdogs never shorter than a few legitimate 64 MiB pre-allocations on this machine right now
-    let cal = calibration_ms();
-    let (first_ms, confirm_ms) = (first_ms.max(6 * cal), confirm_ms.max(20 * cal));
     let nw = std::env::var("C08_WORKERS").ok().and_then(|s| s.parse().ok()).unwrap_or(8usize).max(1);
     let n = jobs.len();
     let per = (n + nw - 1) / nw.max(1);
@@ -219,7 +216,7 @@ pub fn run_batch_wd(jobs: Vec<(String, Args)>, first_ms: u64, confirm_ms: u64) -
 }
 
 pub fn run(op: &str, a: &Args) -> Option<Args> {
-    if !matches!(op, "c08.outcome" | "c08.column" | "c08.thrift_meta" | "c08.schema_probe" | "c08.avro_longs" | "c08.ipc_batch" | "c08.calibrate") { return None }
+    if !matches!(op, "c08.outcome" | "c08.column" | "c08.thrift_meta" | "c08.schema_probe" | "c08.avro_longs" | "c08.ipc_batch") { return None }
     if let Ok(p) = std::env::var("C08_CHILD") { return run_child(op, a, &p) }
     if std::env::var("C08_INPROC").is_ok() { return run_local(op, a) }
     if let Some(o) = cache().lock().unwrap().get(&key(op, a)) { return Some(o.clone()) }
